@@ -127,7 +127,7 @@ NED_ATTRS = ['P0', 'M0', 'gamma', 'C0', 'sigA', 'sigS', 'expDensity_abs', 'expTe
              'Pr0', 'Pr1', 'M1', 'T0', 'T1', 'rho0', 'rho1', 'epsilon', 'd_M', 'd_f']
 
 
-def ned_fluxes(model, res, problems=('nED', 'LM_nED')):
+def ned_fluxes(model, res, problems=('nED', 'LM_nED'), modname=None, var='P', eq=('Pr0', 'Pr1'), tag='fnctn_nED'):
     """Non-equilibrium diffusion (problem 'nED' and 'LM_nED'): every stored profile quantity is a closed form of the
     integration variables (radiation pressure P, Mach number M) through fnctn_nED.mat_density / mat_speed / mat_pres /
     mat_temp / rad_flux.  With P and M symbols:
@@ -137,7 +137,8 @@ def ned_fluxes(model, res, problems=('nED', 'LM_nED')):
     where the right-hand side of the last one is the constant the ODE dPdx is built around, evaluated with the same
     helper functions at the equilibrium state of that side (its equality on the two sides is the jump condition
     solved numerically by downstream_equilibrium, not decided)."""
-    mod = model.modules.get(NED)
+    modname = modname or NED
+    mod = model.modules.get(modname)
     umod = model.modules.get(UTILS)
     if mod is None or umod is None or 'nED_ShockProfiles' not in umod.classes:
         raise AnalysisError('radshocks.fnctn_nED / utils.nED_ShockProfiles vanished')
@@ -145,15 +146,15 @@ def ned_fluxes(model, res, problems=('nED', 'LM_nED')):
     for problem in problems:
         b = Builder(model)
         b.frame = Frame(None, mod, {}, None)
-        inst = b.symbolic_obj(ci, NED_ATTRS, {'problem': None})
+        inst = b.symbolic_obj(ci, NED_ATTRS + ['Er0', 'Er1', 'Lambda', 'R'], {'problem': None})
         b.heap[inst.val.oid]['problem'] = b.const(problem)
         b.heap[inst.val.oid]['__dict__'] = b.mk('dict', [], [])
-        P, M = b.mk('param', 'P'), b.mk('param', 'M')
+        P, M = b.mk('param', var), b.mk('param', 'M')
 
         def call(fname, *args):
-            fi = model.get_func('%s:%s' % (NED, fname))
+            fi = model.get_func('%s:%s' % (modname, fname))
             if fi is None:
-                raise AnalysisError('fnctn_nED.%s vanished' % fname)
+                raise AnalysisError('%s.%s vanished' % (tag, fname))
             b.frame = Frame(None, mod, {}, None)
             return fi, b.run_function(fi, list(args) + [inst])
         f_rho, rho_n = call('mat_density', P, M)
@@ -170,7 +171,7 @@ def ned_fluxes(model, res, problems=('nED', 'LM_nED')):
                 return False
             # sums that do not depend on the integration variables (the equilibrium states) stay opaque
             def setup(sy_):
-                sy_.opaque_pred = lambda k: 'param:P^' not in k and 'param:M^' not in k
+                sy_.opaque_pred = lambda k: ('param:%s^' % var) not in k and 'param:M^' not in k
             return staged_zero(ev, x, setup=setup)
 
         def oblige(fi, label, ok, msg):
@@ -187,29 +188,34 @@ def ned_fluxes(model, res, problems=('nED', 'LM_nED')):
         M0, P0, C0, g, Pr0 = A('M0'), A('P0'), A('C0'), A('gamma'), A('Pr0')
         rho, u, p, T, Em = (ev.nf(n) for n in (rho_n, u_n, p_n, T_n, Em_n))
         if any(x is NAN or isinstance(x, (PW, Struct)) for x in (rho, u, p, T, Em)):
-            raise AnalysisError('fnctn_nED: material closures are not closed forms of (P, M)')
+            raise AnalysisError(tag + ': material closures are not closed forms of (P, M)')
         inv = lambda x: ev.power(x, ev.S.F(-1))
         oblige(f_u, 'mass flux: mat_density * mat_speed == M0', zero(ev.add(ev.mul(rho, u), M0, -1)),
-               'fnctn_nED: the mass flux rho u of the closures (mat_density, mat_speed) is not M0 for every (P, M)')
-        mom = ev.add(ev.add(ev.add(ev.mul(rho, ev.mul(u, u)), p), ev.mul(P0, ev.nf(P))),
+               tag + ': the mass flux rho u of the closures (mat_density, mat_speed) is not M0 for every (P, M)')
+        if var == 'P':
+            Prad = ev.nf(P)
+        else:
+            Lam, Rr = A('Lambda'), A('R')
+            Prad = ev.mul(ev.add(Lam, ev.mul(ev.mul(Lam, Rr), ev.mul(Lam, Rr))), ev.nf(P))
+        mom = ev.add(ev.add(ev.add(ev.mul(rho, ev.mul(u, u)), p), ev.mul(P0, Prad)),
                      ev.add(ev.add(ev.mul(M0, M0), inv(g)), ev.mul(P0, Pr0)), -1)
         oblige(f_rho, 'momentum flux: rho u^2 + p + P0 P == M0^2 + 1/gamma + P0 Pr0', zero(mom),
-               'fnctn_nED: the total momentum flux (with the radiation pressure P0 P) of the closures is not the upstream value for '
+               tag + ': the total momentum flux (with the radiation pressure P0 P) of the closures is not the upstream value for '
                'every (P, M): mat_density / mat_speed / mat_pres are not the solution of the mass and momentum balances')
         oblige(f_T, 'Mach number: mat_speed^2 == M^2 mat_temp, mat_pres == rho T / gamma',
                zero(ev.add(ev.mul(u, u), ev.mul(ev.mul(ev.nf(M), ev.nf(M)), T), -1)) and zero(ev.add(p, ev.mul(ev.mul(rho, T), inv(g)), -1)),
-               'fnctn_nED: the closures are not consistent with the integration variable M being the local Mach number u / sqrt(T) '
+               tag + ': the closures are not consistent with the integration variable M being the local Mach number u / sqrt(T) '
                '(non-dimensional sound speed sqrt(T)) and p = rho T / gamma')
         # energy: on each side of M = 1 (the equilibrium state of the side is selected the way dPdx selects it)
         from ..nf import leaves
         beta = ev.mul(u, inv(C0))
         Fr = ev.nf(Fr_n)
         tot = ev.add(ev.mul(beta, Em), ev.mul(P0, Fr))
-        b.frame = Frame(f_F, mod, {'P': P, 'M': M, 'self': inst}, None)
+        b.frame = Frame(f_F, mod, {var: P, 'M': M, 'self': inst}, None)
         want = b.eval(ast.parse(
-            "mat_beta(numpy.where(M > 1, self.Pr0, self.Pr1), numpy.where(M > 1, self.M0, self.M1), self) * "
-            "(mat_total_energy(numpy.where(M > 1, self.Pr0, self.Pr1), numpy.where(M > 1, self.M0, self.M1), self) + self.P0 * "
-            "rad_flux2(numpy.where(M > 1, self.Pr0, self.Pr1), numpy.where(M > 1, self.M0, self.M1), self))", mode='eval').body)
+            ("mat_beta(numpy.where(M > 1, self.%s, self.%s), numpy.where(M > 1, self.M0, self.M1), self) * "
+             "(mat_total_energy(numpy.where(M > 1, self.%s, self.%s), numpy.where(M > 1, self.M0, self.M1), self) + self.P0 * "
+             "rad_flux2(numpy.where(M > 1, self.%s, self.%s), numpy.where(M > 1, self.M0, self.M1), self))") % (eq * 3), mode='eval').body)
         dd = ev.add(tot, ev.nf(want), -1)
         ok = dd is not NAN
         sides = 0
@@ -222,6 +228,6 @@ def ned_fluxes(model, res, problems=('nED', 'LM_nED')):
                 if not zero(leaf):
                     ok = False
         oblige(f_F, 'energy flux: beta Em + P0 rad_flux == beta_eq (Em_eq + P0 rad_flux2_eq) on each side of M = 1', ok and sides >= 1,
-               'fnctn_nED: the total energy flux (material energy flux plus P0 times the radiation flux returned by rad_flux) is not the '
+               tag + ': the total energy flux (material energy flux plus P0 times the radiation flux returned by rad_flux) is not the '
                'constant the ODE dPdx is built around, for every (P, M): rad_flux, dPdx and the material closures are not one '
                'consistent energy balance (an opacity, a coefficient or the second moment differs between them)')
